@@ -115,6 +115,7 @@ SCHEMA_VALUE = {"invalid": S_INVALID, "valid": S_VALID, "valid-ref": S_REF, "d4o
 
 
 def schema_text(state):
+    state = kind_of(state)
     if state == "notjson":
         return "{not json"
     if state in SCHEMA_VALUE:
@@ -145,6 +146,7 @@ def inst_value(state, p):
 
 
 def inst_text(state, p):
+    state = kind_of(state)
     if state == "notjson":
         return "[1, %d," % p
     if state == "x-close":
@@ -209,6 +211,61 @@ def unit_lists(full_len, base_len):
     return all_lists(full_len) + all_lists(base_len, BASE_INST, [], full_len + 1)
 
 
+# -------------------------------------------------------------- file names ---
+# A letter of the schema / instance alphabet may carry a *name style*: "inv1@brace-index" is
+# the state inv1 in a file whose name contains "{1}".  The styles are characters that mean
+# something to str.format, to %-formatting, to repr, to a shell or to an option parser; the
+# file's content, and hence what the model demands, does not depend on its name.
+def _styles():
+    non_ascii = True
+    try:
+        u"-\xe9\u2713".encode(sys.getfilesystemencoding())
+        u"-\xe9\u2713".encode(locale.getpreferredencoding(False))
+    except (UnicodeError, LookupError):
+        non_ascii = False
+    styles = [("brace-index", "%s{1}", "braces"), ("brace-key", "%s{x}", "braces"), ("brace-empty", "%s{}", "braces"),
+              ("brace-zero", "%s{0}", "braces"), ("brace-open", "%s{", "braces"), ("brace-close", "%s}", "braces"),
+              ("brace-double", "{{%s}}", "braces"), ("brace-body", "%s{body}", "braces"),
+              ("brace-error", "%s{error}", "braces"), ("brace-type", "%s{type}{path}", "braces"),
+              ("percent-s", "%s%%s", "percent"), ("percent", "%s%%", "percent"), ("percent-key", "%s%%(path)s", "percent"),
+              ("space", "%s x y", "space"), ("quote", "%s'q", "quotes"), ("dquote", '%s"q', "quotes"),
+              ("quotes", "%s'\"q", "quotes"), ("backslash", "%s\\n", "backslash"),
+              ("dash", "-%s-d", "leading-dash"), ("shell", "%s$(x);&*", "shell")]
+    if non_ascii:
+        styles.append(("non-ascii", u"%s-\xe9\u2713", "non-ascii"))
+    return styles
+
+
+NAME_STYLES = _styles()
+STYLE_PATTERN = dict((n, pat) for n, pat, _ in NAME_STYLES)
+STYLE_CLASS = dict((n, c) for n, _, c in NAME_STYLES)
+STYLED_SCHEMA = ["valid", "missing", "notjson", "invalid"]     # schema states that also come under a styled name
+
+
+def kind_of(letter):
+    return letter.split("@", 1)[0]
+
+
+def style_of(letter):
+    return letter.split("@", 1)[1] if "@" in letter else None
+
+
+def file_name(stem, letter):
+    st = style_of(letter)
+    return (stem if st is None else STYLE_PATTERN[st] % stem) + ".json"
+
+
+def unescaped(text, tokens):
+    """The built-in diagnostics may show a path through repr(): where that spells a file name
+    differently (backslash, both kinds of quote) the spelling is turned back, so that naming
+    a file by its repr counts as mentioning it."""
+    for t in tokens:
+        r = repr(t)[1:-1]
+        if r != t:
+            text = text.replace(r, t)
+    return text
+
+
 # --------------------------------------------------------------- workspace ---
 class Workspace(object):
     """Private scratch directory with every file of the alphabet; removed on close."""
@@ -228,6 +285,16 @@ class Workspace(object):
         self.base_uri = "file://" + self.dir + "/refs/"
         self.memo = {}      # (schema state, validator, base-uri) -> the model's memo for these factors
         self.roots = {}     # root_case: does this text shape misbehave on its own?
+        self.made = set()   # files under styled names, written when a configuration first needs them
+
+    def provide(self, case):
+        letters = [(schema_token(case["schema"]), case["schema"], None)]
+        if not isinstance(case["list"], dict):
+            letters += [(inst_token(l, p), l, p) for p, l in enumerate(case["list"])]
+        for name, letter, p in letters:
+            if style_of(letter) is not None and kind_of(letter) != "missing" and name not in self.made:
+                self._w(name, schema_text(letter) if p is None else inst_text(letter, p))
+                self.made.add(name)
 
     def _w(self, name, text):
         # default text encoding and newline handling: exactly what the command line's open(path) undoes
@@ -245,11 +312,11 @@ class Workspace(object):
 
 
 def schema_token(state):
-    return "S_%s.json" % state
+    return file_name("S_%s" % kind_of(state), state)
 
 
 def inst_token(state, p):
-    return "p%d_%s.json" % (p, state)
+    return file_name("p%d_%s" % (p, kind_of(state)), state)
 
 
 def describe(case):
@@ -257,7 +324,7 @@ def describe(case):
     characters of each file; whether they load is the model's (the json module's) business."""
     st = case["schema"]
     schema = {"token": schema_token(st)}
-    if st == "missing":
+    if kind_of(st) == "missing":
         schema["state"] = "missing"
     else:
         schema.update(state="text", text=schema_text(st))
@@ -266,15 +333,15 @@ def describe(case):
         s = lst["stdin"]
         insts = [{"token": "<stdin>", "state": "text", "text": inst_text(s, 0), "key": ("stdin", s)}]
     else:
-        insts = [{"token": inst_token(s, p), "state": "missing", "key": (s, p)} if s == "missing" else
+        insts = [{"token": inst_token(s, p), "state": "missing", "key": (s, p)} if kind_of(s) == "missing" else
                  {"token": inst_token(s, p), "state": "text", "text": inst_text(s, p), "key": (s, p)}
                  for p, s in enumerate(lst)]
     return schema, insts
 
 
 def argv_of(case, ws, absolute):
-    def path(name):
-        return os.path.join(ws.dir, name) if absolute else name
+    def path(name):     # a relative name with a leading dash is given the way a user has to give it
+        return os.path.join(ws.dir, name) if absolute else ("./" + name if name.startswith("-") else name)
     argv = []
     if not isinstance(case["list"], dict):
         for p, s in enumerate(case["list"]):
@@ -342,8 +409,11 @@ def judge(case, ws, ctx, exp=None):
     """Returns (problem or None, exp, obs)."""
     if exp is None:
         exp = expected(case, ws)
+    ws.provide(case)
     obs = observe_subproc(case, ws, ctx) if case["mode"] == "subproc" else observe_inproc(case, ws)
-    prob = model.compare(exp, obs, case["out"], case["fmt"], tokens_of(case))
+    tokens = tokens_of(case)
+    obs["stdout"], obs["stderr"] = unescaped(obs["stdout"], tokens), unescaped(obs["stderr"], tokens)
+    prob = model.compare(exp, obs, case["out"], case["fmt"], tokens)
     if prob is None and exp["schema_failure"] is not None and obs["stdin_consumed"]:
         prob = ("schema-failure-instance-processed", {"stdin_consumed": obs["stdin_consumed"]})
     return prob, exp, obs
@@ -397,8 +467,23 @@ def root_case(case, ws, ctx):
             if stdin:
                 cands.append(dict(schema="valid", list={"stdin": k}))
     for c in cands:
-        c.update(mode=case["mode"], out="plain", fmt=MARK, validator=None, base_uri=False)
-        key = json.dumps([c["mode"], c["schema"], c["list"]])
+        c.update(out="plain", fmt=MARK)
+    # the same for a file name: what a name does to the command line does not depend on the rest either
+    # (but on the output mode, which is kept); one file under that name, in the order invalid, missing,
+    # unparsable, valid instance, then as the schema file
+    styles = []
+    for k in [case["schema"]] + ([] if stdin else list(case["list"])):
+        if style_of(k) and style_of(k) not in styles:
+            styles.append(style_of(k))
+    for st in styles:
+        named = [dict(schema="valid", list=["%s@%s" % (k, st)]) for k in ("inv1", "missing", "notjson", "valid")]
+        named += [dict(schema="%s@%s" % (k, st), list=["valid"]) for k in ("notjson", "missing", "invalid", "valid")]
+        for c in named:
+            c.update(out=case["out"], fmt=case["fmt"])
+        cands += named
+    for c in cands:
+        c.update(mode=case["mode"], validator=None, base_uri=False)
+        key = json.dumps([c["mode"], c["schema"], c["list"], c["out"], c["fmt"]])
         if key not in ws.roots:
             ws.roots[key] = judge(c, ws, ctx)[0] is not None
         if ws.roots[key]:
@@ -450,7 +535,8 @@ def shrink(case, kind, ws, ctx):
 
     def factors(cur):
         fold = model.coarse(expected(cur, ws))
-        schemas = SIMPLER_SCHEMA.get(cur["schema"], []) + [cur["schema"]]
+        sch = cur["schema"]
+        schemas = SIMPLER_SCHEMA.get(kind_of(sch), []) + ([kind_of(sch)] if style_of(sch) else []) + [sch]
         vals = [v for v in (None, "Draft7Validator", "Draft4Validator") if v != cur["validator"]] + [cur["validator"]]
         bases = [False, True] if cur["base_uri"] else [False]
         cands = [(s, v, b) for s in schemas for v in vals for b in bases]
@@ -479,7 +565,7 @@ def shrink(case, kind, ws, ctx):
         lst = cur["list"]
         elems = [lst["stdin"]] if isinstance(lst, dict) else list(lst)
         for i, k in enumerate(elems):
-            for alt in SIMPLER_INST.get(k, []):
+            for alt in ([kind_of(k)] if style_of(k) else SIMPLER_INST.get(k, [])):    # a plain name first
                 if isinstance(lst, dict) and alt not in STDIN_STATES:
                     continue
                 new = elems[:i] + [alt] + elems[i + 1:]
@@ -516,9 +602,14 @@ def signature(case, kind, exp):
     extra = ""
     if case["schema"] in SHAPE_CLASS:
         extra += "|schema-text=" + SHAPE_CLASS[case["schema"]]
-    elif case["schema"] not in ("valid", "missing", "notjson", "invalid"):
+    elif kind_of(case["schema"]) not in ("valid", "missing", "notjson", "invalid"):
         extra += "|schema=" + case["schema"]
     lst = case["list"]
+    if style_of(case["schema"]):
+        extra += "|schema-name=" + STYLE_CLASS[style_of(case["schema"])]
+    names = sorted(set(STYLE_CLASS[style_of(k)] for k in ([] if isinstance(lst, dict) else lst) if style_of(k)))
+    if names:
+        extra += "|name=" + "+".join(names)
     shapes = sorted(set(SHAPE_CLASS[k] for k in (lst.values() if isinstance(lst, dict) else lst) if k in SHAPE_CLASS))
     if shapes:
         extra += "|text=" + "+".join(shapes)
@@ -605,6 +696,11 @@ def alphabet_check():
                                "the alphabet assumes %s" % (st, v, got, w))
     tokens = [schema_token(st) for st in SCHEMA_STATES] + [inst_token(st, p) for st in INST_STATES
                                                            for p in range(MAXPOS)] + ["<stdin>"]
+    for style, _, _ in NAME_STYLES:
+        tokens += [schema_token("%s@%s" % (st, style)) for st in STYLED_SCHEMA]
+        tokens += [inst_token("%s@%s" % (st, style), p) for st in BASE_INST for p in range(MAXPOS)]
+    if len(set(tokens)) != len(tokens):
+        raise RuntimeError("two files of the alphabet have the same name")
     for x in tokens:
         for y in tokens:
             if x != y and x in y:
@@ -675,6 +771,37 @@ def rotation_coverage(rows, acc, schemas, outs, pairs=True):
                for v in (acc[j] if pairs else [0]) for b in (range(len(BASES)) if pairs else [0]))
     return (want <= seen and all(len(v) == len(outs) for v in met.values())
             and len(set(rows)) == len(rows))
+
+
+def name_rows(style, o, maxlen):
+    """The file-name dimension for one style and one output mode (no --validator, no --base-uri):
+    every list of length 1..maxlen over {base instance states} x {plain name, styled name} — with the
+    valid schema under its plain name the lists that contain a styled name, with the valid schema
+    under the styled name all of them plus stdin; and the schema states that stop the model (missing,
+    not JSON, invalid) under the styled name with every single file and stdin."""
+    letters = BASE_INST + ["%s@%s" % (k, style) for k in BASE_INST]
+    lists = [as_row(l) for l in all_lists(maxlen, letters, [])]
+    stdin = [as_row(l) for l in all_lists(0, [], ["valid", "inv3"])]
+    rows = [(l, "valid", o, 0, 0) for l in lists if any(style_of(k) for k in l)]
+    rows += [(l, "valid@" + style, o, 0, 0) for l in lists + stdin]
+    for st in STYLED_SCHEMA:
+        if st != "valid":
+            rows += [(l, "%s@%s" % (st, style), o, 0, 0) for l in lists + stdin[:1] if l[0] == "stdin" or len(l) == 1]
+    return rows
+
+
+def name_subprocess_rows():
+    """Per style six configurations through a real process (argv, file system and stream encodings
+    are real there), output modes rotated so that every (style, main output mode) pair occurs twice."""
+    rows = []
+    for n, (style, _, _) in enumerate(NAME_STYLES):
+        def at(k):
+            return "%s@%s" % (k, style)
+        cfgs = [((at("inv1"),), "valid"), ((at("missing"), "valid"), "valid"), ((at("notjson"), at("valid")), "valid"),
+                (("inv3",), at("valid")), (("valid",), at("notjson")), ((at("valid"),), at("invalid"))]
+        for i, (l, sch) in enumerate(cfgs):
+            rows.append((l, sch, (i + n) % MAIN_OUT, 0, 0))
+    return rows
 
 
 def subprocess_rows(thorough, acc):
@@ -770,7 +897,19 @@ def plan(ctx):
         n = (len(mine) + 599) // 600
         for c in range(n):
             units.append(("inproc-rows", tuple(mine[c::n])))
+    # the file-name dimension
+    name_len = 3 if ctx.thorough else 2
+    name_cfgs = 0
+    for style, _, _ in NAME_STYLES:
+        for o in range(MAIN_OUT):
+            mine = name_rows(style, o, name_len)
+            name_cfgs += len(mine)
+            n = (len(mine) + 599) // 600
+            for c in range(n):
+                units.append(("inproc-rows", tuple(mine[c::n])))
     rows, sub_text = subprocess_rows(ctx.thorough, acc)
+    name_sub = name_subprocess_rows()
+    rows = sorted(set(rows + name_sub), key=repr)
     chunk = 48 if ctx.thorough else 16
     # interleave so that every chunk mixes cheap and expensive rows
     nchunks = (len(rows) + chunk - 1) // chunk
@@ -818,7 +957,18 @@ def plan(ctx):
                          "chosen by rotation (%d rows; verified: every (position, instance state, schema state, output mode, "
                          "accepting pair) occurs and every list meets all %d output modes). " % (
                              len(rot_rows) // len(foldable), len(OUTFMT), len(rot_rows), len(OUTFMT)))),
-                     sub_text)),
+                     sub_text + "; and for every file-name style six configurations (styled invalid / missing / unparsable / "
+                     "valid instance, styled valid / unparsable / invalid schema), main output modes rotated (%d rows)"
+                     % len(name_sub))
+                 + (". File names: every letter above lives in a file with a plain name; in addition, for each of %d name "
+                    "styles (%s) and each main output mode, in-process, no --validator / --base-uri: every list of length "
+                    "1..%d over {valid, invalid-1-error, invalid-3-errors, missing, not-JSON, null} x {plain name, styled name} "
+                    "with the valid schema under a plain name (lists containing a styled name) and under the styled name (all "
+                    "lists, and stdin), and the missing / not-JSON / invalid schema under the styled name with every single "
+                    "file and stdin (%d configurations). The model's demand does not depend on the name; a built-in "
+                    "diagnostic may spell a name through repr()" % (
+                        len(NAME_STYLES), ", ".join(repr(STYLE_PATTERN[n] % "NAME") for n, _, _ in NAME_STYLES), name_len,
+                        name_cfgs))),
         "bounds": {"tier": ctx.tier, "max_list_length_whole_alphabet": 3, "max_list_length_full_product_whole_alphabet": full_len,
                    "max_list_length_base_alphabet": base_len,
                    "instance_states": len(INST_STATES), "stdin_states": len(STDIN_STATES),
@@ -828,7 +978,9 @@ def plan(ctx):
                    "output_modes": len(OUTFMT), "odd_error_formats": [f for f, _ in ODD_FORMATS],
                    "inprocess_odd_format_product": odd_cfgs, "inprocess_odd_format_rotated_rows": len(odd_rows),
                    "validator_options": len(VALIDATORS), "base_uri_options": len(BASES),
-                   "inprocess_configurations": inproc_cfgs + odd_cfgs + len(odd_rows) + len(rot_rows),
+                   "file_name_styles": [n for n, _, _ in NAME_STYLES], "inprocess_file_name_configurations": name_cfgs,
+                   "max_list_length_file_names": name_len,
+                   "inprocess_configurations": inproc_cfgs + odd_cfgs + len(odd_rows) + len(rot_rows) + name_cfgs,
                    "inprocess_rotated_rows": len(rot_rows),
                    "subprocess_configurations": len(rows),
                    "fold_state_space": "status so far in {0, non-zero} x position 0..%d, plus 'schema failed'" % base_len},
@@ -871,7 +1023,7 @@ def run_unit(unit, ctx):
             skey = (s, o, v, b)
         else:
             mode = "inproc" if unit[0] == "inproc-rows" else "subproc"
-            cfgs = [dict(mode=mode, schema=SCHEMA_STATES[s], list=as_list(l), out=OUTFMT[o][0],
+            cfgs = [dict(mode=mode, schema=SCHEMA_STATES[s] if isinstance(s, int) else s, list=as_list(l), out=OUTFMT[o][0],
                          fmt=OUTFMT[o][1], validator=VALIDATORS[v], base_uri=BASES[b])
                     for (l, s, o, v, b) in unit[1]]
             skey = None
@@ -888,8 +1040,12 @@ def run_unit(unit, ctx):
             oc = "%s:%s:%s" % (case["mode"], "nonzero" if exp["nonzero"] else "zero", model.coarse(exp))
             outcomes[oc] = outcomes.get(oc, 0) + 1
             # vacuity guard for the text dimension: what the model made of every schema state / text shape
-            oc = "schema-state:%s:%s" % (case["schema"], model.coarse(exp) if exp["schema_failure"] else "accepted")
+            oc = "schema-state:%s:%s" % (kind_of(case["schema"]), model.coarse(exp) if exp["schema_failure"] else "accepted")
             outcomes[oc] = outcomes.get(oc, 0) + 1
+            for k in [case["schema"]] + ([] if isinstance(case["list"], dict) else list(case["list"])):
+                if style_of(k):     # ... and for the file names: which state came under which style
+                    oc = "name-style:%s:%s" % (style_of(k), kind_of(k))
+                    outcomes[oc] = outcomes.get(oc, 0) + 1
             if exp["schema_failure"] is None:
                 lst = case["list"]
                 for k, it in zip(lst.values() if isinstance(lst, dict) else lst, exp["items"]):
